@@ -9,7 +9,7 @@ from vp import core, gen, sig as S, ref_sigproc
 
 PROP_ID = 'C06'
 LEVEL = 'exploration'
-BUDGET = {'quick': 3000, 'thorough': 80000}
+BUDGET = {'quick': 5000, 'thorough': 80000}
 RULE = ('Histories: Hypothesis draws a frame with prior content (zeros / seeded noise through add_noise / '
         'float32 data loaded from a .fil written by an independent SIGPROC writer / a frame that was already injected as a member of a cadence), occasionally more than 2**16 channels wide, 1..4 signal descriptions as '
         'in C01 each with its own bounding-range kind (none, inside, clipped low/high, wholly below/above, '
@@ -22,7 +22,7 @@ RULE = ('Histories: Hypothesis draws a frame with prior content (zeros / seeded 
 ASSUMPTIONS = ['boundary columns of a range (within half a channel of either end) may be included or not',
                'bounded vs unbounded agree to 1e-10 relative (different sub-grid origin under integrate_f_profile)',
                'randomised path/profile families carry their own seeds and are rebuilt per injection']
-REQUIRED_CLASSES = ['prior=zeros', 'prior=noise', 'prior=file32', 'prior=via_cadence', 'wide_frame', 'range=inside', 'range=clip_low', 'range=clip_high',
+REQUIRED_CLASSES = ['noise_stats_first_read_after_injection', 'prior=zeros', 'prior=noise', 'prior=file32', 'prior=via_cadence', 'wide_frame', 'range=inside', 'range=clip_low', 'range=clip_high',
                     'range=below', 'range=above', 'range=reversed', 'n>=2', 'asc', 'desc']
 
 
@@ -46,7 +46,9 @@ def strategy_(draw, tier):
         injections.append(dict(sig=sg, opts=draw(S.opts_strategy()), range=draw(S.range_strategy())))
     perm = draw(st.permutations(list(range(n))))
     return dict(g=g, wide=wide, prior=draw(st.sampled_from(['zeros', 'noise', 'noise', 'file32', 'via_cadence'])),
-                prior_seed=draw(st.integers(0, 10 ** 6)), inj=injections, perm=list(perm))
+                prior_seed=draw(st.integers(0, 10 ** 6)), inj=injections, perm=list(perm),
+                # the noise estimates are looked at for the first time only after the injections
+                late_stats=draw(st.sampled_from([False, False, False, True])))
 
 
 def strategy(tier):
@@ -81,9 +83,10 @@ def make_prior(stg, case, ctx):
     return fr
 
 
-def snapshot(fr):
+def snapshot(fr, stats_from=None):
+    src = fr if stats_from is None else stats_from
     return dict(fs=np.array(fr.fs, copy=True), ts=np.array(fr.ts, copy=True), shape=tuple(fr.shape),
-                nm=copy.deepcopy(fr.noise_mean), ns=copy.deepcopy(fr.noise_std),
+                nm=copy.deepcopy(src.noise_mean), ns=copy.deepcopy(src.noise_std),
                 meta=copy.deepcopy(fr.metadata), rng=copy.deepcopy(fr.rng.bit_generator.state),
                 df=fr.df, dt=fr.dt, fch1=fr.fch1, asc=fr.ascending, dtype=fr.data.dtype,
                 fchans=fr.fchans, tchans=fr.tchans, t_start=fr.t_start)
@@ -134,7 +137,18 @@ def run_case(case, ctx):
     obs.cls('prior=' + case['prior'], 'asc' if g['ascending'] else 'desc', 'n>=2' if len(case['inj']) >= 2 else 'n=1')
     ax = S.Axes(fr.fs, fr.ts, fr.df, fr.dt)
     initial = fr.data.copy()
-    s0 = snapshot(fr)
+    late = bool(case.get('late_stats'))
+    twin0 = None
+    if late:
+        # the expected estimates come from an identically built twin; this frame's own are first read after injecting
+        obs.cls('noise_stats_first_read_after_injection')
+        ok, twin0 = core.call(obs, 'prior_twin', make_prior, stg, case, ctx)
+        if not ok:
+            return obs
+        if not np.array_equal(twin0.data, fr.data):
+            obs.count('prior_twin_differs')        # determinism is C12's subject: fall back to this frame's own estimates
+            twin0 = None
+    s0 = snapshot(fr, stats_from=twin0)
     twin_geom = dict(g, route='sizes', df=fr.df, dt=fr.dt, fch1=fr.fch1)
     returned = []
     held = []
